@@ -455,9 +455,21 @@ func genC19Params(t *simrt.Tape, invalidOK bool) map[string]string {
 	return p
 }
 
+// c19Bulk widens the universe of configuration names for one execution, so
+// that settings.json grows past a few KiB (buffer and page boundaries).
+var c19Bulk int
+
+func c19Name(t *simrt.Tape) string {
+	K := simrt.KGen
+	if c19Bulk > 0 {
+		return fmt.Sprintf("config-%02d-%s", t.Choose(K, c19Bulk), strings.Repeat("x", 20))
+	}
+	return cfgNames[t.Choose(K, len(cfgNames))]
+}
+
 func genC19Op(t *simrt.Tape, mutatingOnly bool) c19op {
 	K := simrt.KGen
-	name := cfgNames[t.Choose(K, len(cfgNames))]
+	name := c19Name(t)
 	switch k := t.Choose(K, 10); {
 	case k < 5:
 		return c19op{Kind: "save", Name: name, Params: genC19Params(t, !mutatingOnly)}
@@ -466,7 +478,7 @@ func genC19Op(t *simrt.Tape, mutatingOnly bool) c19op {
 	case k < 9 && !mutatingOnly:
 		return c19op{Kind: "render", Params: genC19Params(t, false)}
 	case !mutatingOnly:
-		return c19op{Kind: "clone", Name: cfgNames[t.Choose(K, len(cfgNames))], From: name}
+		return c19op{Kind: "clone", Name: c19Name(t), From: name}
 	}
 	return c19op{Kind: "save", Name: name, Params: genC19Params(t, false)}
 }
@@ -652,7 +664,13 @@ func runC19(x *xctx) *violation {
 func c19Sequential(x *xctx) *violation {
 	t := x.t
 	freshProcess(true)
+	c19Bulk = 0
 	n := 1 + t.Choose(simrt.KGen, 12)
+	if t.Bool(simrt.KCfg, 10) {
+		c19Bulk = 40
+		n = 30 + t.Choose(simrt.KGen, 40)
+		defer func() { c19Bulk = 0 }()
+	}
 	ops := make([]c19op, n)
 	for i := range ops {
 		ops[i] = genC19Op(t, false)
@@ -712,7 +730,15 @@ func resultViolation(res simrt.Result) *violation {
 func c19Faults(x *xctx) *violation {
 	t := x.t
 	freshProcess(true)
+	c19Bulk = 0
 	np := t.Choose(simrt.KGen, 5)
+	if t.Bool(simrt.KCfg, 8) {
+		// a settings file of several KiB: many saved configurations before the
+		// operation under faults
+		c19Bulk = 40
+		np = 25 + t.Choose(simrt.KGen, 20)
+		defer func() { c19Bulk = 0 }()
+	}
 	prefix := make([]c19op, np)
 	for i := range prefix {
 		prefix[i] = genC19Op(t, true)
